@@ -1490,6 +1490,14 @@ class Interp:
                 self.dropped.add('logger.* calls (no-ops that cannot raise)')
                 return NONE
             h = BUILTINS.get(f.name) or self.spec_funcs.get('builtin_' + f.name)
+            if f.name == 'asyncio.gather' and 'return_exceptions' in kwargs:
+                # gather(..., return_exceptions=True) turns the failure of an awaited branch into an ordinary result: the
+                # exception no longer reaches whoever awaits the gather (C16: failures reach the emitter; C03: the emitter
+                # must not believe that everything downstream completed)
+                self.oblige('C16.awaited_failures_propagate_through_gather', z3.Not(self.truth(kwargs['return_exceptions'])),
+                            kind='callsite', note='asyncio.gather called with return_exceptions')
+                self.st.obligations[-1].props = ['C16', 'C03']
+                kwargs = {k: v for k, v in kwargs.items() if k != 'return_exceptions'}
             if h is None and 'call_default' in self.spec_funcs:
                 return self.spec_funcs['call_default'](self, 'builtin', f.name, None, args, kwargs)
             if h is None:
